@@ -143,7 +143,10 @@ def spec_minimal() -> dict:
 def spec_errors() -> dict:
     resp = {str(c): {"description": "e"} for c in (400, 401, 403, 404, 409, 418, 422, 429, 500, 502, 503)}
     resp["200"] = {"description": "ok", "content": J({"type": "array", "items": {"type": "string"}})}
-    return pipeline.base_spec(paths={"/e": {"get": {"operationId": "errs", "tags": ["E"], "responses": resp}}})
+    # a model class called like an exception alias: the endpoint module must then import the alias MODULE of the core
+    resp["404"] = {"description": "e", "content": J(R("NotFoundError"))}
+    return pipeline.base_spec(paths={"/e": {"get": {"operationId": "errs", "tags": ["E"], "responses": resp}}},
+                              schemas={"NotFoundError": {"type": "object", "properties": {"detail": {"type": "string"}}}})
 
 
 def spec_models_only_types() -> dict:
